@@ -7,9 +7,13 @@
      AlignmentCollector.forward_alignments -> forward
      process_genic / process_intergenic filters -> may_pass / must_pass
      MultimapResolver.find_duplicates      -> dedup  (record level; the index-level loop is Multimap2.v of C08)
-   The model describes the code AFTER the two repairs fixes/C05_split_last_bin.diff (outer loop guarded by current_start,
-   empty regions not emitted) and fixes/C05_inmemory_end_bin.diff (alignment_start_index[end_bin + 1]); the loops as they
-   were are kept as `outer_cur` / `get_mem_cur` with `..._refuted` witnesses.
+   The model describes the code AFTER the three repairs fixes/C05_split_last_bin.diff (outer loop guarded by current_start,
+   empty regions not emitted), fixes/C05_inmemory_end_bin.diff (alignment_start_index[end_bin + 1]) and
+   fixes/C05_first_subregion_start.diff (the first sub-region starts at genomic_region[0] instead of
+   max(COVERAGE_BIN * first_bin + 1, genomic_region[0])): `split_regions`, `forward`.
+   The code before the third repair is kept as `split_regions_prev` / `forward_prev` (theorems `..._prev` with the
+   `boundary_corner` exemption, witness `boundary_corner_refuted`); the loops as they were before the first two are kept as
+   `outer_cur` / `get_mem_cur` / `forward_cur` with `..._refuted` witnesses.
    All constants (COVERAGE_BIN, MAX_REGION_LEN, MIN_READS_TO_SPLIT, ABS_COV_VALLEY, REL_COV_VALLEY = RN/RD) are section
    variables; the instances at the end take them from gen/Tables.v (regenerated from the repository on every run).
    Coordinates: an alignment is (reference_start, reference_end, id) exactly as pysam reports it (0-based, end exclusive);
@@ -344,7 +348,20 @@ Definition split_bins_cur (cov:Z -> Z) (first last:Z) : option (list (Z*Z)) :=
   outer_cur cov last (split_fuel first last) first (first + 1) (cov first) [].
 (* split_coverage_regions(genomic_region, storage): count = storage.get_read_count(), cov = coverage_dict (0 when absent),
    first/last = smallest/largest key; None = the model ran out of fuel (excluded by split_regions_total) *)
+(* the repaired body of the outer loop: `region_start = genomic_region[0] if not split_regions else max(...)`;
+   `started` = the list split_regions is not empty; a sub-region is appended only if it is not empty *)
+Definition region_of_first (r:iv) (b:Z*Z) : iv := (fst r, Z.min (snd b * BIN) (snd r)).
+Fixpoint emit_regions (r:iv) (started:bool) (bs:list (Z*Z)) : list iv :=
+  match bs with
+  | [] => []
+  | b :: t => let reg := if started then region_of r b else region_of_first r b in
+              if nonempty_iv reg then reg :: emit_regions r true t else emit_regions r started t
+  end.
 Definition split_regions (r:iv) (count:Z) (cov:Z -> Z) (first last:Z) : option (list iv) :=
+  if (py_interval_len r <? MAXLEN) && (count <? MINREADS) then Some [r]
+  else option_map (emit_regions r false) (split_bins cov first last).
+(* before fixes/C05_first_subregion_start.diff: every sub-region starts at max(bin start + 1, genomic_region[0]) *)
+Definition split_regions_prev (r:iv) (count:Z) (cov:Z -> Z) (first last:Z) : option (list iv) :=
   if (py_interval_len r <? MAXLEN) && (count <? MINREADS) then Some [r]
   else option_map (fun bs => filter nonempty_iv (map (region_of r) bs)) (split_bins cov first last).
 Definition split_regions_cur (r:iv) (count:Z) (cov:Z -> Z) (first last:Z) : option (list iv) :=
@@ -386,6 +403,37 @@ Proof. intros last. induction bs as [|[a b] t IH]; intros s r Ht Hr Hl Hf Hs; cb
     assert (b = last + 1) by lia. subst b.
     destruct t as [|[x y] t]; cbn [tiles] in Ht; [|destruct Ht as (? & ? & Ht); apply tiles_le in Ht; lia]. cbn [map filter chain].
     assert (last * BIN <= snd r) by nia. lia. Qed.
+
+(* once a sub-region has been emitted the repaired loop is the previous one *)
+Lemma emit_started r : forall bs, emit_regions r true bs = filter nonempty_iv (map (region_of r) bs).
+Proof. induction bs as [|b t IH]; [reflexivity|]. cbn [emit_regions map filter]. rewrite IH. reflexivity. Qed.
+(* the repaired loop tiles the whole region [r0, r1] *)
+Lemma tiles_chain_first : forall last bs r,
+  tiles (fst r / BIN) (last + 1) bs -> fst r <= snd r -> last = snd r / BIN -> chain (fst r) (snd r) (emit_regions r false bs).
+Proof. intros last bs r Ht Hr Hl. destruct bs as [|[a b] t]; cbn [tiles] in Ht.
+  { pose proof (Z.div_le_mono (fst r) (snd r) BIN BIN_pos Hr). lia. }
+  destruct Ht as (-> & Hab & Ht).
+  pose proof (Z.mul_div_le (snd r) BIN BIN_pos) as D1. pose proof (Z.mod_pos_bound (snd r) BIN BIN_pos) as D2.
+  pose proof (Z.div_mod (snd r) BIN ltac:(lia)) as D3.
+  pose proof (Z.mod_pos_bound (fst r) BIN BIN_pos) as D4. pose proof (Z.div_mod (fst r) BIN ltac:(lia)) as D5.
+  pose proof (Z.div_le_mono (fst r) (snd r) BIN BIN_pos Hr) as D6.
+  set (q1 := snd r / BIN) in *. set (q0 := fst r / BIN) in *.
+  assert (Hb: b <= last + 1) by (apply tiles_le in Ht; exact Ht).
+  assert (Hr0b: fst r < b * BIN) by nia.
+  cbn [emit_regions]. unfold region_of_first, nonempty_iv. cbn [fst snd].
+  replace (fst r <=? Z.min (b * BIN) (snd r)) with true by lia.
+  rewrite emit_started. cbn [chain fst snd]. split; [reflexivity|]. split; [lia|]. split; [lia|].
+  destruct (Z.eq_dec b (last + 1)) as [->|Hne].
+  - destruct t as [|[x y] t]; cbn [tiles] in Ht; [|destruct Ht as (? & ? & Ht); apply tiles_le in Ht; lia]. cbn [map filter chain].
+    assert (snd r < (last + 1) * BIN) by nia. lia.
+  - assert (b <= last) by lia. assert (b * BIN <= snd r) by nia.
+    replace (Z.min (b * BIN) (snd r) + 1) with (Z.max (b * BIN + 1) (fst r)) by lia.
+    apply (tiles_chain last); try assumption; lia. Qed.
+(* a region that is not split is a chain as well *)
+Lemma chain_single (r:iv) : fst r <= snd r -> chain (fst r) (snd r) [r].
+Proof. intros H. cbn [chain]. repeat split; lia. Qed.
+Lemma chain_single_inv lo hi (x:iv) : chain lo hi [x] -> x = (lo, hi).
+Proof. cbn [chain]. intros (H1 & _ & _ & H2). destruct x as [x0 x1]. cbn [fst snd] in *. f_equal; lia. Qed.
 
 (* every alignment that touches [lo, hi] overlaps at least one sub-region of a chain *)
 Lemma chain_covers : forall regs lo hi x, chain lo hi regs -> lo <= hi -> fst x <= snd x -> lo <= snd x -> fst x <= hi ->
@@ -476,8 +524,9 @@ Definition forward_gen (sp:iv -> Z -> (Z -> Z) -> Z -> Z -> option (list iv)) gm
   end.
 Definition retrieve := retrieve_gen get_mem.
 Definition retrieve_all := retrieve_all_gen get_mem.
-(* the code after the two repairs, and the code before them *)
+(* the code after the three repairs, before the third, and before all of them *)
 Definition forward := forward_gen split_regions get_mem.
+Definition forward_prev := forward_gen split_regions_prev get_mem.
 Definition forward_cur := forward_gen split_regions_cur get_mem_cur.
 
 (* ---------------------------------------------------------------- facts about hulls and bins *)
@@ -529,12 +578,25 @@ Proof. intros p Hp. rewrite cov_of_eq. replace (filter _ l) with (@nil aln); [cb
   replace ((sbin b <=? p) && (p <=? ebin b)) with false by lia. apply IH. intros c Hc. apply H. right; exact Hc. Qed.
 
 (* split_coverage_regions always returns (the model never runs out of fuel) and its sub-regions are consecutive, non-empty
-   and tile the cluster region from max(first bin start + 1, r0) to r1 -- for every coverage function *)
+   and tile the cluster region from r0 to r1 -- for every coverage function *)
 Theorem split_regions_tile : forall r count cov first last,
   fst r <= snd r -> first = fst r / BIN -> last = snd r / BIN -> (forall p, last < p -> cov p <= ABSV) ->
-  exists regs, split_regions r count cov first last = Some regs /\
-    (regs = [r] \/ chain (Z.max (first * BIN + 1) (fst r)) (snd r) regs).
+  exists regs, split_regions r count cov first last = Some regs /\ chain (fst r) (snd r) regs.
 Proof. intros r count cov first last Hr Hf Hl Hb. unfold split_regions.
+  destruct ((py_interval_len r <? MAXLEN) && (count <? MINREADS)); [eexists; split; [reflexivity|apply chain_single; exact Hr]|].
+  assert (Hfl: first <= last) by (subst; apply Z.div_le_mono; lia).
+  unfold split_bins.
+  destruct (outer_fix_total cov last Hb (split_fuel first last) first (first + 1) (cov first) []) as [bs Hbs];
+    [lia|intros; reflexivity|unfold split_fuel; lia|].
+  rewrite Hbs. cbn [option_map]. eexists; split; [reflexivity|].
+  apply (tiles_chain_first last); try assumption. rewrite <- Hf.
+  eapply outer_fix_tiles; [exact Hb| | | |exact Hbs]; [lia|intros; reflexivity|reflexivity]. Qed.
+(* before the third repair: from max(first bin start + 1, r0) to r1 *)
+Theorem split_regions_tile_prev : forall r count cov first last,
+  fst r <= snd r -> first = fst r / BIN -> last = snd r / BIN -> (forall p, last < p -> cov p <= ABSV) ->
+  exists regs, split_regions_prev r count cov first last = Some regs /\
+    (regs = [r] \/ chain (Z.max (first * BIN + 1) (fst r)) (snd r) regs).
+Proof. intros r count cov first last Hr Hf Hl Hb. unfold split_regions_prev.
   destruct ((py_interval_len r <? MAXLEN) && (count <? MINREADS)); [eexists; split; [reflexivity|left; reflexivity]|].
   assert (Hfl: first <= last) by (subst; apply Z.div_le_mono; lia).
   unfold split_bins.
@@ -695,13 +757,14 @@ Proof. unfold retrieve_all, retrieve. induction regs as [|r t IH]; intros H; cbn
     eexists; split; [reflexivity|]. split; [cbn; rewrite Hm; reflexivity|].
     intros r' x' [E|Hin]; [inversion E; subst; exact Hx|apply Hi, Hin]. Qed.
 
-(* the one input shape the sub-regions do not cover: a one-base alignment on the first base of a cluster that starts
-   exactly on a bin boundary (the first sub-region starts at COVERAGE_BIN * bin + 1) *)
+(* the one input shape the sub-regions of the code BEFORE fixes/C05_first_subregion_start.diff do not cover: a one-base
+   alignment on the first base of a cluster that starts exactly on a bin boundary (the first sub-region started at
+   COVERAGE_BIN * bin + 1) *)
 Definition boundary_corner (whole:iv) (a:aln) : Prop := fst whole mod BIN = 0 /\ rs a = fst whole /\ re a = rs a + 1.
+Definition lo_prev (whole:iv) : Z := Z.max (fst whole / BIN * BIN + 1) (fst whole).
 
-Lemma not_corner_reaches whole a : fst whole <= rs a -> rs a < re a -> ~ boundary_corner whole a ->
-  Z.max (fst whole / BIN * BIN + 1) (fst whole) <= re a - 1.
-Proof. intros H1 H2 Hc. unfold boundary_corner in Hc.
+Lemma not_corner_reaches whole a : fst whole <= rs a -> rs a < re a -> ~ boundary_corner whole a -> lo_prev whole <= re a - 1.
+Proof. intros H1 H2 Hc. unfold boundary_corner in Hc. unfold lo_prev.
   pose proof (Z.div_mod (fst whole) BIN ltac:(lia)). pose proof (Z.mod_pos_bound (fst whole) BIN BIN_pos).
   destruct (Z.eq_dec (fst whole mod BIN) 0) as [E|E]; [|nia].
   destruct (Z.eq_dec (rs a) (fst whole)) as [E2|E2]; [|nia].
@@ -710,25 +773,36 @@ Proof. intros H1 H2 Hc. unfold boundary_corner in Hc.
 (* the list of regions forward_alignments works through *)
 Definition processed_regions (whole:iv) (regs:list iv) : list iv := match regs with [_] => [whole] | _ => regs end.
 
-Theorem forward_spec : forall m file cluster,
+(* forward_alignments for any split function `sp` whose result is the whole region or a chain from `lo_of whole` to its end *)
+Section Forward.
+Variable sp : iv -> Z -> (Z -> Z) -> Z -> Z -> option (list iv).
+Variable lo_of : iv -> Z.
+Hypothesis sp_tile : forall r count cov first last,
+  fst r <= snd r -> first = fst r / BIN -> last = snd r / BIN -> (forall p, last < p -> cov p <= ABSV) ->
+  exists regs, sp r count cov first last = Some regs /\ (regs = [r] \/ chain (lo_of r) (snd r) regs).
+Hypothesis lo_ge : forall r, fst r <= lo_of r.
+Let fwd := forward_gen sp get_mem.
+
+Theorem forward_spec_gen : forall m file cluster,
   cluster <> [] -> (forall b, In b cluster -> rs b < re b) -> (m = HighMem -> sorted cluster) ->
   exists whole regs out,
     hull_of cluster = Some whole /\
-    split_regions whole (Z.of_nat (length cluster)) (cov_of cluster) (first_bin cluster) (last_bin cluster) = Some regs /\
-    (regs = [whole] \/ chain (Z.max (fst whole / BIN * BIN + 1) (fst whole)) (snd whole) regs) /\
-    forward m file cluster = Some out /\ map fst out = processed_regions whole regs /\
+    sp whole (Z.of_nat (length cluster)) (cov_of cluster) (first_bin cluster) (last_bin cluster) = Some regs /\
+    (regs = [whole] \/ chain (lo_of whole) (snd whole) regs) /\
+    fwd m file cluster = Some out /\ map fst out = processed_regions whole regs /\
     (* returned for a region iff it overlaps the region *)
     (forall reg alns, In (reg, alns) out ->
        forall a, In a alns <-> In a (source m file cluster) /\ py_overlaps reg (span a) = true) /\
-    (* every alignment of the cluster is returned for at least one region *)
-    (forall a, In a cluster -> In a (source m file cluster) -> ~ boundary_corner whole a ->
-       exists reg alns, In (reg, alns) out /\ In a alns).
+    (* every alignment of the cluster that reaches lo_of whole is returned for at least one region *)
+    (forall a, In a cluster -> In a (source m file cluster) -> lo_of whole <= re a - 1 ->
+       exists reg alns, In (reg, alns) out /\ In a alns) /\
+    (forall b, In b cluster -> fst whole <= rs b /\ re b - 1 <= snd whole).
 Proof. intros m file cluster Hne Hw Hs.
   destruct (hull_spec cluster Hne Hw) as (whole & Hh & Hww & Hin & Hfb & Hlb).
-  destruct (split_regions_tile whole (Z.of_nat (length cluster)) (cov_of cluster) (first_bin cluster) (last_bin cluster)
+  destruct (sp_tile whole (Z.of_nat (length cluster)) (cov_of cluster) (first_bin cluster) (last_bin cluster)
               Hww Hfb Hlb (cov_of_beyond cluster)) as (regs & Hsplit & Hshape).
-  rewrite Hfb in Hshape.
-  set (lo := Z.max (fst whole / BIN * BIN + 1) (fst whole)) in *.
+  pose proof (lo_ge whole) as Hlo0.
+  set (lo := lo_of whole) in *.
   assert (Hinside: forall r, In r (processed_regions whole regs) -> fst whole <= fst r /\ fst r <= snd r /\ snd r <= snd whole).
   { intros r Hr. destruct Hshape as [->|Hc]; [cbn in Hr; destruct Hr as [<-|[]]; lia|].
     assert (Hr': r = whole \/ In r regs).
@@ -737,53 +811,37 @@ Proof. intros m file cluster Hne Hw Hs.
   destruct (retrieve_all_spec m file cluster whole (processed_regions whole regs)) as (out & Hout & Hmap & Hret).
   { intros r Hr. destruct (Hinside r Hr) as (? & ? & ?).
     destruct (retrieve_spec m file cluster whole r Hs Hw Hh Hne) as [x [Hx _]]; auto. exists x; exact Hx. }
-  assert (Hfwd: forward m file cluster = Some out).
-  { unfold forward, forward_gen. rewrite Hh, Hsplit. destruct regs as [|x [|y t]]; exact Hout. }
+  assert (Hfwd: fwd m file cluster = Some out).
+  { unfold fwd, forward_gen. rewrite Hh, Hsplit. destruct regs as [|x [|y t]]; exact Hout. }
   assert (Hiff: forall reg alns, In (reg, alns) out -> forall a, In a alns <-> In a (source m file cluster) /\ py_overlaps reg (span a) = true).
   { intros reg alns Hi. assert (Hr: In reg (processed_regions whole regs)) by (rewrite <- Hmap; apply (in_map fst) in Hi; exact Hi).
     destruct (Hinside reg Hr) as (? & ? & ?).
     destruct (retrieve_spec m file cluster whole reg Hs Hw Hh Hne) as [x [Hx Hxs]]; auto.
     rewrite (Hret _ _ Hi) in Hx. inversion Hx; subst. exact Hxs. }
-  exists whole, regs, out. repeat (split; [assumption|]).
-  intros a Ha Hsrc Hnc. destruct (Hin a Ha) as [Ha1 Ha2]. specialize (Hw a Ha).
+  exists whole, regs, out. repeat (split; [assumption|]). split; [|exact Hin].
+  intros a Ha Hsrc Hreach. destruct (Hin a Ha) as [Ha1 Ha2]. specialize (Hw a Ha).
   assert (Hreg: exists reg, In reg (processed_regions whole regs) /\ py_overlaps reg (span a) = true).
   { assert (Hov: py_overlaps whole (span a) = true) by (unfold py_overlaps, span; cbn [fst snd]; lia).
     destruct Hshape as [->|Hc]; [exists whole; split; [left; reflexivity|exact Hov]|].
-    pose proof (not_corner_reaches whole a Ha1 Hw Hnc) as Hlo. fold lo in Hlo.
     destruct (chain_covers regs lo (snd whole) (span a) Hc) as [r [Hr Hor]]; unfold span; cbn [fst snd]; try lia.
     destruct regs as [|x [|y t]]; [contradiction|exists whole; split; [left; reflexivity|exact Hov]|exists r; split; [exact Hr|exact Hor]]. }
   destruct Hreg as [reg [Hr Hor]].
   rewrite <- Hmap in Hr. apply in_map_iff in Hr. destruct Hr as [[reg' alns] [E Hi]]. cbn in E. subst reg'.
   exists reg, alns. split; [exact Hi|]. apply (Hiff reg alns Hi). split; assumption. Qed.
 
-(* the two memory modes *)
-Theorem no_alignment_lost_default : forall file cluster a, cluster <> [] -> (forall b, In b cluster -> rs b < re b) ->
-  incl cluster file -> In a cluster ->
-  exists whole out, hull_of cluster = Some whole /\ forward Default file cluster = Some out /\
-    (~ boundary_corner whole a -> exists reg alns, In (reg, alns) out /\ In a alns).
-Proof. intros file cluster a Hne Hw Hincl Ha.
-  destruct (forward_spec Default file cluster Hne Hw ltac:(discriminate)) as (whole & regs & out & Hh & _ & _ & Hf & _ & _ & Hall).
-  exists whole, out. repeat (split; [assumption|]). intros Hnc. apply Hall; [exact Ha|apply Hincl, Ha|exact Hnc]. Qed.
-Theorem no_alignment_lost_highmem : forall file cluster a, cluster <> [] -> (forall b, In b cluster -> rs b < re b) ->
-  sorted cluster -> In a cluster ->
-  exists whole out, hull_of cluster = Some whole /\ forward HighMem file cluster = Some out /\
-    (~ boundary_corner whole a -> exists reg alns, In (reg, alns) out /\ In a alns).
-Proof. intros file cluster a Hne Hw Hs Ha.
-  destruct (forward_spec HighMem file cluster Hne Hw ltac:(intros; exact Hs)) as (whole & regs & out & Hh & _ & _ & Hf & _ & _ & Hall).
-  exists whole, out. repeat (split; [assumption|]). intros Hnc. apply Hall; [exact Ha|exact Ha|exact Hnc]. Qed.
 (* an alignment is handed to exactly the regions it overlaps: duplicates arise only across sub-region borders *)
-Theorem returned_iff_overlaps : forall m file cluster out reg alns a, cluster <> [] -> (forall b, In b cluster -> rs b < re b) ->
-  (m = HighMem -> sorted cluster) -> forward m file cluster = Some out -> In (reg, alns) out ->
+Theorem returned_iff_overlaps_gen : forall m file cluster out reg alns a, cluster <> [] -> (forall b, In b cluster -> rs b < re b) ->
+  (m = HighMem -> sorted cluster) -> fwd m file cluster = Some out -> In (reg, alns) out ->
   (In a alns <-> In a (source m file cluster) /\ py_overlaps reg (span a) = true).
 Proof. intros m file cluster out reg alns a Hne Hw Hs Hf Hi.
-  destruct (forward_spec m file cluster Hne Hw Hs) as (whole & regs & out' & _ & _ & _ & Hf' & _ & Hiff & _).
+  destruct (forward_spec_gen m file cluster Hne Hw Hs) as (whole & regs & out' & _ & _ & _ & Hf' & _ & Hiff & _).
   rewrite Hf in Hf'. inversion Hf'; subst out'. apply (Hiff reg alns Hi). Qed.
 (* and the regions handed out do not overlap each other, so an alignment inside one region is returned exactly once *)
-Theorem regions_disjoint : forall m file cluster out i j ri rj xi xj, cluster <> [] -> (forall b, In b cluster -> rs b < re b) ->
-  (m = HighMem -> sorted cluster) -> forward m file cluster = Some out -> (i < j)%nat ->
+Theorem regions_disjoint_gen : forall m file cluster out i j ri rj xi xj, cluster <> [] -> (forall b, In b cluster -> rs b < re b) ->
+  (m = HighMem -> sorted cluster) -> fwd m file cluster = Some out -> (i < j)%nat ->
   nth_error out i = Some (ri, xi) -> nth_error out j = Some (rj, xj) -> snd ri < fst rj.
 Proof. intros m file cluster out i j ri rj xi xj Hne Hw Hs Hf Hij Hi Hj.
-  destruct (forward_spec m file cluster Hne Hw Hs) as (whole & regs & out' & _ & _ & Hshape & Hf' & Hmap & _ & _).
+  destruct (forward_spec_gen m file cluster Hne Hw Hs) as (whole & regs & out' & _ & _ & Hshape & Hf' & Hmap & _ & _).
   rewrite Hf in Hf'. inversion Hf'; subst out'.
   assert (Hi': nth_error (processed_regions whole regs) i = Some ri) by (rewrite <- Hmap; rewrite nth_error_map, Hi; reflexivity).
   assert (Hj': nth_error (processed_regions whole regs) j = Some rj) by (rewrite <- Hmap; rewrite nth_error_map, Hj; reflexivity).
@@ -793,6 +851,93 @@ Proof. intros m file cluster out i j ri rj xi xj Hne Hw Hs Hf Hij Hi Hj.
     + destruct i; discriminate.
     + destruct j; [lia|]. destruct j; discriminate.
     + eapply chain_disjoint; [exact Hc|exact Hij|exact Hi'|exact Hj']. Qed.
+End Forward.
+
+(* the two instances *)
+Lemma split_regions_tile_disj : forall r count cov first last,
+  fst r <= snd r -> first = fst r / BIN -> last = snd r / BIN -> (forall p, last < p -> cov p <= ABSV) ->
+  exists regs, split_regions r count cov first last = Some regs /\ (regs = [r] \/ chain (fst r) (snd r) regs).
+Proof. intros r count cov first last H1 H2 H3 H4. destruct (split_regions_tile r count cov first last H1 H2 H3 H4) as [regs [E C]].
+  exists regs. split; [exact E|right; exact C]. Qed.
+Lemma split_regions_tile_prev_lo : forall r count cov first last,
+  fst r <= snd r -> first = fst r / BIN -> last = snd r / BIN -> (forall p, last < p -> cov p <= ABSV) ->
+  exists regs, split_regions_prev r count cov first last = Some regs /\ (regs = [r] \/ chain (lo_prev r) (snd r) regs).
+Proof. intros r count cov first last H1 H2 H3 H4. destruct (split_regions_tile_prev r count cov first last H1 H2 H3 H4) as [regs [E C]].
+  exists regs. split; [exact E|]. unfold lo_prev. rewrite <- H2. exact C. Qed.
+Lemma lo_prev_ge r : fst r <= lo_prev r. Proof. unfold lo_prev. lia. Qed.
+Lemma lo_fst_ge (r:iv) : fst r <= fst r. Proof. lia. Qed.
+
+(* REPAIRED code: the sub-regions are a chain over the whole cluster region, every alignment is handed out *)
+Theorem forward_spec : forall m file cluster,
+  cluster <> [] -> (forall b, In b cluster -> rs b < re b) -> (m = HighMem -> sorted cluster) ->
+  exists whole regs out,
+    hull_of cluster = Some whole /\
+    split_regions whole (Z.of_nat (length cluster)) (cov_of cluster) (first_bin cluster) (last_bin cluster) = Some regs /\
+    chain (fst whole) (snd whole) regs /\
+    forward m file cluster = Some out /\ map fst out = regs /\
+    (forall reg alns, In (reg, alns) out ->
+       forall a, In a alns <-> In a (source m file cluster) /\ py_overlaps reg (span a) = true) /\
+    (forall a, In a cluster -> In a (source m file cluster) -> exists reg alns, In (reg, alns) out /\ In a alns).
+Proof. intros m file cluster Hne Hw Hs.
+  destruct (forward_spec_gen split_regions fst split_regions_tile_disj lo_fst_ge m file cluster Hne Hw Hs)
+    as (whole & regs & out & Hh & Hsp & Hshape & Hf & Hmap & Hiff & Hall & Hin).
+  assert (Hww: fst whole <= snd whole).
+  { destruct cluster as [|b t]; [contradiction|]. destruct (Hin b ltac:(left; reflexivity)). specialize (Hw b ltac:(left; reflexivity)). lia. }
+  assert (Hc: chain (fst whole) (snd whole) regs) by (destruct Hshape as [->|Hc]; [apply chain_single; exact Hww|exact Hc]).
+  exists whole, regs, out. repeat (split; [assumption|]). split; [|split; [exact Hiff|]].
+  - rewrite Hmap. destruct regs as [|x [|y t]]; try reflexivity. cbn [processed_regions].
+    rewrite (chain_single_inv _ _ _ Hc). destruct whole; reflexivity.
+  - intros a Ha Hsrc. apply Hall; [exact Ha|exact Hsrc|]. destruct (Hin a Ha). specialize (Hw a Ha). lia. Qed.
+
+(* the two memory modes *)
+Theorem no_alignment_lost_default : forall file cluster a, cluster <> [] -> (forall b, In b cluster -> rs b < re b) ->
+  incl cluster file -> In a cluster ->
+  exists whole out, hull_of cluster = Some whole /\ forward Default file cluster = Some out /\
+    exists reg alns, In (reg, alns) out /\ In a alns.
+Proof. intros file cluster a Hne Hw Hincl Ha.
+  destruct (forward_spec Default file cluster Hne Hw ltac:(discriminate)) as (whole & regs & out & Hh & _ & _ & Hf & _ & _ & Hall).
+  exists whole, out. repeat (split; [assumption|]). apply Hall; [exact Ha|apply Hincl, Ha]. Qed.
+Theorem no_alignment_lost_highmem : forall file cluster a, cluster <> [] -> (forall b, In b cluster -> rs b < re b) ->
+  sorted cluster -> In a cluster ->
+  exists whole out, hull_of cluster = Some whole /\ forward HighMem file cluster = Some out /\
+    exists reg alns, In (reg, alns) out /\ In a alns.
+Proof. intros file cluster a Hne Hw Hs Ha.
+  destruct (forward_spec HighMem file cluster Hne Hw ltac:(intros; exact Hs)) as (whole & regs & out & Hh & _ & _ & Hf & _ & _ & Hall).
+  exists whole, out. repeat (split; [assumption|]). apply Hall; [exact Ha|exact Ha]. Qed.
+Definition returned_iff_overlaps := returned_iff_overlaps_gen split_regions fst split_regions_tile_disj lo_fst_ge.
+Definition regions_disjoint := regions_disjoint_gen split_regions fst split_regions_tile_disj lo_fst_ge.
+
+(* the code BEFORE fixes/C05_first_subregion_start.diff: the same with the one-base corner exempted *)
+Theorem forward_spec_prev : forall m file cluster,
+  cluster <> [] -> (forall b, In b cluster -> rs b < re b) -> (m = HighMem -> sorted cluster) ->
+  exists whole regs out,
+    hull_of cluster = Some whole /\
+    split_regions_prev whole (Z.of_nat (length cluster)) (cov_of cluster) (first_bin cluster) (last_bin cluster) = Some regs /\
+    (regs = [whole] \/ chain (lo_prev whole) (snd whole) regs) /\
+    forward_prev m file cluster = Some out /\ map fst out = processed_regions whole regs /\
+    (forall reg alns, In (reg, alns) out ->
+       forall a, In a alns <-> In a (source m file cluster) /\ py_overlaps reg (span a) = true) /\
+    (forall a, In a cluster -> In a (source m file cluster) -> ~ boundary_corner whole a ->
+       exists reg alns, In (reg, alns) out /\ In a alns).
+Proof. intros m file cluster Hne Hw Hs.
+  destruct (forward_spec_gen split_regions_prev lo_prev split_regions_tile_prev_lo lo_prev_ge m file cluster Hne Hw Hs)
+    as (whole & regs & out & Hh & Hsp & Hshape & Hf & Hmap & Hiff & Hall & Hin).
+  exists whole, regs, out. repeat (split; [assumption|]).
+  intros a Ha Hsrc Hnc. apply Hall; [exact Ha|exact Hsrc|]. destruct (Hin a Ha). apply not_corner_reaches; auto. Qed.
+Theorem no_alignment_lost_default_prev : forall file cluster a, cluster <> [] -> (forall b, In b cluster -> rs b < re b) ->
+  incl cluster file -> In a cluster ->
+  exists whole out, hull_of cluster = Some whole /\ forward_prev Default file cluster = Some out /\
+    (~ boundary_corner whole a -> exists reg alns, In (reg, alns) out /\ In a alns).
+Proof. intros file cluster a Hne Hw Hincl Ha.
+  destruct (forward_spec_prev Default file cluster Hne Hw ltac:(discriminate)) as (whole & regs & out & Hh & _ & _ & Hf & _ & _ & Hall).
+  exists whole, out. repeat (split; [assumption|]). intros Hnc. apply Hall; [exact Ha|apply Hincl, Ha|exact Hnc]. Qed.
+Theorem no_alignment_lost_highmem_prev : forall file cluster a, cluster <> [] -> (forall b, In b cluster -> rs b < re b) ->
+  sorted cluster -> In a cluster ->
+  exists whole out, hull_of cluster = Some whole /\ forward_prev HighMem file cluster = Some out /\
+    (~ boundary_corner whole a -> exists reg alns, In (reg, alns) out /\ In a alns).
+Proof. intros file cluster a Hne Hw Hs Ha.
+  destruct (forward_spec_prev HighMem file cluster Hne Hw ltac:(intros; exact Hs)) as (whole & regs & out & Hh & _ & _ & Hf & _ & _ & Hall).
+  exists whole, out. repeat (split; [assumption|]). intros Hnc. apply Hall; [exact Ha|exact Ha|exact Hnc]. Qed.
 (* ---------------------------------------------------------------- clusters of a coordinate-sorted file are separated *)
 Lemma sorted_app_r : forall l1 l2, sorted (l1 ++ l2) -> sorted l2.
 Proof. induction l1 as [|a t IH]; intros l2 H; [exact H|]. cbn in H. destruct H as [_ H]. apply IH, H. Qed.
@@ -877,7 +1022,7 @@ Proof. intros file c whole r a Hs Hw Hc Hh H1 H2 Ha.
 (* every alignment of a coordinate-sorted chromosome is handed to the per-region processing at least once *)
 Theorem every_alignment_forwarded : forall m file a, sorted file -> (forall b, In b file -> rs b < re b) -> In a file ->
   exists c whole out, In c (process file) /\ In a c /\ hull_of c = Some whole /\ forward m file c = Some out /\
-    (~ boundary_corner whole a -> exists reg alns, In (reg, alns) out /\ In a alns).
+    exists reg alns, In (reg, alns) out /\ In a alns.
 Proof. intros m file a Hs Hw Ha.
   assert (Ha': In a (concat (process file))) by (rewrite clusters_partition; exact Ha).
   apply in_concat in Ha'. destruct Ha' as [c [Hc Hac]].
@@ -888,7 +1033,7 @@ Proof. intros m file a Hs Hw Ha.
     rewrite concat_app in P. cbn [concat] in P. rewrite <- P in Hs. apply sorted_app_r in Hs. apply sorted_app_l in Hs. exact Hs. }
   destruct (forward_spec m file c Hne ltac:(intros; apply Hw, Hincl; assumption) ltac:(intros; exact Hsc))
     as (whole & regs & out & Hh & _ & _ & Hf & _ & _ & Hall).
-  exists c, whole, out. repeat (split; [assumption|]). intros Hnc. apply Hall; [exact Hac| |exact Hnc].
+  exists c, whole, out. repeat (split; [assumption|]). apply Hall; [exact Hac|].
   destruct m; [apply Hincl, Hac|exact Hac]. Qed.
 (* and only members of the cluster come back, in either mode *)
 Theorem only_cluster_members_returned : forall m file c out reg alns a, sorted file -> (forall b, In b file -> rs b < re b) ->
@@ -903,13 +1048,9 @@ Proof. intros m file c out reg alns a Hs Hw Hc Hf Hi Ha.
   destruct (forward_spec m file c Hne Hwc ltac:(intros; exact Hsc)) as (whole & regs & out' & Hh & _ & Hshape & Hf' & Hmap & Hiff & _).
   rewrite Hf in Hf'. inversion Hf'; subst out'.
   apply (Hiff reg alns Hi) in Ha. destruct Ha as [Hsrc Hov]. destruct m; cbn [source] in Hsrc; [|exact Hsrc].
-  assert (Hr: In reg (processed_regions whole regs)) by (rewrite <- Hmap; apply (in_map fst) in Hi; exact Hi).
+  assert (Hr: In reg regs) by (rewrite <- Hmap; apply (in_map fst) in Hi; exact Hi).
   assert (Hin: fst whole <= fst reg /\ snd reg <= snd whole).
-  { destruct (hull_spec c Hne Hwc) as (w & Hw1 & Hw2 & _). rewrite Hh in Hw1. inversion Hw1; subst w.
-    destruct Hshape as [->|Hch]; [cbn in Hr; destruct Hr as [<-|[]]; lia|].
-    assert (Hr': reg = whole \/ In reg regs).
-    { destruct regs as [|x [|y t]]; cbn [processed_regions] in Hr; [contradiction|destruct Hr as [<-|[]]; left; reflexivity|right; exact Hr]. }
-    destruct Hr' as [->|Hr']; [lia|]. pose proof (chain_inside _ _ _ _ Hch Hr'). lia. }
+  { pose proof (chain_inside _ _ _ _ Hshape Hr). lia. }
   apply (fetch_only_cluster file c whole reg a Hs Hw Hc Hh); [lia|lia|]. apply get_bam_overlaps. split; assumption. Qed.
 End Model.
 
@@ -924,7 +1065,14 @@ Definition iq_split_regions := split_regions AP_COVERAGE_BIN AP_MAX_REGION_LEN A
 Definition iq_split_regions_cur := split_regions_cur AP_COVERAGE_BIN AP_MAX_REGION_LEN AP_MIN_READS_TO_SPLIT AP_ABS_COV_VALLEY iqRN iqRD.
 Definition iq_forward := forward AP_COVERAGE_BIN AP_MAX_REGION_LEN AP_MIN_READS_TO_SPLIT AP_ABS_COV_VALLEY iqRN iqRD.
 Definition iq_forward_cur := forward_cur AP_COVERAGE_BIN AP_MAX_REGION_LEN AP_MIN_READS_TO_SPLIT AP_ABS_COV_VALLEY iqRN iqRD.
+Definition iq_split_regions_prev := split_regions_prev AP_COVERAGE_BIN AP_MAX_REGION_LEN AP_MIN_READS_TO_SPLIT AP_ABS_COV_VALLEY iqRN iqRD.
+Definition iq_forward_prev := forward_prev AP_COVERAGE_BIN AP_MAX_REGION_LEN AP_MIN_READS_TO_SPLIT AP_ABS_COV_VALLEY iqRN iqRD.
 Definition iq_corner := boundary_corner AP_COVERAGE_BIN.
+Definition iq_split_regions_tile_prev := split_regions_tile_prev AP_COVERAGE_BIN AP_MAX_REGION_LEN AP_MIN_READS_TO_SPLIT AP_ABS_COV_VALLEY iqRN iqRD iq_bin_pos.
+Definition iq_no_alignment_lost_default_prev :=
+  no_alignment_lost_default_prev AP_COVERAGE_BIN AP_MAX_REGION_LEN AP_MIN_READS_TO_SPLIT AP_ABS_COV_VALLEY iqRN iqRD iq_bin_pos iq_absv_nonneg.
+Definition iq_no_alignment_lost_highmem_prev :=
+  no_alignment_lost_highmem_prev AP_COVERAGE_BIN AP_MAX_REGION_LEN AP_MIN_READS_TO_SPLIT AP_ABS_COV_VALLEY iqRN iqRD iq_bin_pos iq_absv_nonneg.
 
 Definition iq_split_regions_tile := split_regions_tile AP_COVERAGE_BIN AP_MAX_REGION_LEN AP_MIN_READS_TO_SPLIT AP_ABS_COV_VALLEY iqRN iqRD iq_bin_pos.
 Definition iq_no_alignment_lost_default :=
@@ -972,12 +1120,25 @@ Proof. vm_compute. split; reflexivity. Qed.
 Example single_bin_repaired : out_regions (iq_forward Default w_pile w_pile) = [(4900, 4999)] /\
   length (returned_ids (iq_forward Default w_pile w_pile)) = 1100%nat /\ length (returned_ids (iq_forward HighMem w_pile w_pile)) = 1100%nat.
 Proof. vm_compute. repeat split; reflexivity. Qed.
-(* the remaining corner (repaired code): a one-base alignment on the first base of a cluster that starts on a bin boundary *)
+(* before fixes/C05_first_subregion_start.diff: a one-base alignment on the first base of a cluster that starts on a bin boundary *)
 Definition w_corner : list aln :=
   [(5120, 5121, 7777)] ++ block 5120 38000 0 300 ++ [(37900, 39000, 1000)] ++ block 38900 72000 2000 300.
 Example boundary_corner_refuted :
-  out_regions (iq_forward Default w_corner w_corner) = [(5121, 38144); (38145, 71999)] /\
-  existsb (Z.eqb 7777) (returned_ids (iq_forward Default w_corner w_corner)) = false /\
-  existsb (Z.eqb 7777) (returned_ids (iq_forward HighMem w_corner w_corner)) = false /\
+  out_regions (iq_forward_prev Default w_corner w_corner) = [(5121, 38144); (38145, 71999)] /\
+  existsb (Z.eqb 7777) (returned_ids (iq_forward_prev Default w_corner w_corner)) = false /\
+  existsb (Z.eqb 7777) (returned_ids (iq_forward_prev HighMem w_corner w_corner)) = false /\
   iq_corner (5120, 71999) (5120, 5121, 7777).
 Proof. vm_compute. repeat split; reflexivity. Qed.
+(* after it: the first sub-region starts on the first base of the cluster *)
+Example boundary_corner_repaired :
+  out_regions (iq_forward Default w_corner w_corner) = [(5120, 38144); (38145, 71999)] /\
+  existsb (Z.eqb 7777) (returned_ids (iq_forward Default w_corner w_corner)) = true /\
+  existsb (Z.eqb 7777) (returned_ids (iq_forward HighMem w_corner w_corner)) = true.
+Proof. vm_compute. repeat split; reflexivity. Qed.
+(* a cluster of >= MIN_READS_TO_SPLIT one-base alignments on a bin boundary: before the repair no region at all *)
+Definition w_corner_pile : list aln := block 5120 5121 0 1100.
+Example boundary_pile_refuted : iq_forward_prev Default w_corner_pile w_corner_pile = Some [].
+Proof. vm_compute. reflexivity. Qed.
+Example boundary_pile_repaired : out_regions (iq_forward Default w_corner_pile w_corner_pile) = [(5120, 5120)] /\
+  length (returned_ids (iq_forward Default w_corner_pile w_corner_pile)) = 1100%nat.
+Proof. vm_compute. split; reflexivity. Qed.
